@@ -143,6 +143,13 @@ pub fn run_grid(run: &Run, tier: Tier, profile: &str, shard: usize, nshards: usi
             for (k, fl, v) in &out.viol {
               run.violation(Violation { property: "C04".into(), signature: format!("C04:{}:{}:{}:{}", v.class, op_class(f), class_of(f), profile), message: format!("[{} profile, {} {:?} start {} history {}] step {}: {}", profile, fl, cfg, st.name, word_str(&w), k, v.msg), replay: case.clone() });
             }
+            // the subject has written outside the arena: this process's heap can no longer be trusted (the
+            // allocator aborts at some later free).  The shard reports what it has and leaves without freeing.
+            if out.viol.iter().any(|(_, _, v)| v.class == "zeroing-outside-arena" || v.class == "atomic-access-outside-arena") {
+              if let Some(leave) = LEAVE.get() {
+                leave(run);
+              }
+            }
             if let Some(o) = out.obs_sync.last() {
               run.states.insert(hash_of(&(ci, si, o)));
               if matches!(o.res, Res::Err(_)) || out.slow_paths > 0 {
@@ -249,6 +256,9 @@ pub fn check(tier: Tier) -> i32 {
         for h in v["nontrivial_hashes"].as_array().cloned().unwrap_or_default() {
           run.nontrivial.insert(h.as_u64().unwrap_or(0));
         }
+        if v["cut_short"].as_bool().unwrap_or(false) {
+          run.not_exhaustive("a shard stopped after the subject wrote outside the arena");
+        }
         for x in v["violations"].as_array().cloned().unwrap_or_default() {
           run.violation(Violation { property: "C04".into(), signature: x["signature"].as_str().unwrap_or("").into(), message: x["message"].as_str().unwrap_or("").into(), replay: x["replay"].clone() });
         }
@@ -283,20 +293,33 @@ pub fn check(tier: Tier) -> i32 {
   run.finish()
 }
 
+/// set in a shard process: writes the shard's result and ends the process without running destructors
+static LEAVE: std::sync::OnceLock<Box<dyn Fn(&Run) + Send + Sync>> = std::sync::OnceLock::new();
+
+fn write_child_result(run: &Run, out: &str, cut_short: bool) {
+  let viol: Vec<Value> = run.violations.lock().unwrap().values().map(|(_, v)| json!({"signature": v.signature, "message": v.message, "replay": v.replay})).collect();
+  let v = json!({
+    "evaluations": run.evaluations.load(std::sync::atomic::Ordering::Relaxed),
+    "states": run.states.len(), "nontrivial": run.nontrivial.len(), "violations": viol,
+    "state_hashes": run.states.dump(), "nontrivial_hashes": run.nontrivial.dump(), "cut_short": cut_short,
+  });
+  std::fs::write(out, serde_json::to_string(&v).unwrap()).expect("write child result");
+}
+
 /// entry point of one shard (single-threaded child process): result dumped as JSON
 pub fn child(tier: Tier, out: &str, profile: &str, shard: usize, nshards: usize) -> i32 {
   let crash = crate::report::verif_root().join("replays").join(format!("C04-crash-child-{}.json", std::process::id()));
   let _ = std::fs::create_dir_all(crash.parent().unwrap());
   crate::crashguard::arm("C04", &crash);
   let run = Run::new("C04", tier, "fault_enumeration");
+  let out_s = out.to_string();
+  let _ = LEAVE.set(Box::new(move |run: &Run| {
+    crate::crashguard::clear_case();
+    write_child_result(run, &out_s, true);
+    unsafe { libc::_exit(0) }
+  }));
   run_grid(&run, tier, profile, shard, nshards);
-  let viol: Vec<Value> = run.violations.lock().unwrap().values().map(|(_, v)| json!({"signature": v.signature, "message": v.message, "replay": v.replay})).collect();
-  let v = json!({
-    "evaluations": run.evaluations.load(std::sync::atomic::Ordering::Relaxed),
-    "states": run.states.len(), "nontrivial": run.nontrivial.len(), "violations": viol,
-    "state_hashes": run.states.dump(), "nontrivial_hashes": run.nontrivial.dump(),
-  });
-  std::fs::write(out, serde_json::to_string(&v).unwrap()).expect("write child result");
+  write_child_result(&run, out, false);
   0
 }
 
